@@ -118,8 +118,9 @@ type Cell struct {
 	N       int // entries; entry i has identity i and tag "t<i>"
 	// round 4
 	Pick []int  // chosencases (http kinds, grpc/json): the ids of the entries whose tag is listed, ascending; nil = no chosencases option
+	Wts  []int  // scenario kinds: the `weight` of each of the N scenarios (nil: every weight 1); a pass delivers scenario i weight_i / gcd times
 	Src  string // generic JSON provider: the data source — "" | file, inline (datasource.NewInline / `type: inline`), rs (NewReader over a
-	// ReadSeeker), rsc (NewReader over a ReadSeekCloser), pipe (NewReader over a plain io.Reader: cannot be rewound), buf (NewBuffer: cannot be rewound)
+	// ReadSeeker), rsc (NewReader over a ReadSeekCloser), rc (NewReader over a ReadCloser without Seek), pipe (NewReader over a plain io.Reader: cannot be rewound), buf (NewBuffer: cannot be rewound)
 	Cons    int
 	Cap     int    // drain: cancel at this many acquisitions (0 = never); stall: total number of Acquire calls
 	Junk    bool   // add header / blank lines that are not entries where the format allows it
@@ -475,7 +476,7 @@ func fileBody(c Cell) (string, string) {
 		b.WriteString("  - name: r\n    method: GET\n    uri: /r\n    tag: r\n")
 		b.WriteString("scenarios:\n")
 		for i := 0; i < c.N; i++ {
-			fmt.Fprintf(&b, "  - name: e%d\n    weight: 1\n    min_waiting_time: 0\n    requests: [\"r\"]\n", i)
+			fmt.Fprintf(&b, "  - name: e%d\n    weight: %d\n    min_waiting_time: 0\n    requests: [\"r\"]\n", i, c.weight(i))
 		}
 		return ".http.yaml", strings.ReplaceAll(b.String(), "\n", nl)
 	case KGRPCScn:
@@ -483,7 +484,7 @@ func fileBody(c Cell) (string, string) {
 		b.WriteString("  - name: c\n    call: pkg.Svc.M\n    tag: c\n    payload: '{}'\n")
 		b.WriteString("scenarios:\n")
 		for i := 0; i < c.N; i++ {
-			fmt.Fprintf(&b, "  - name: e%d\n    weight: 1\n    min_waiting_time: 0\n    requests: [\"c\"]\n", i)
+			fmt.Fprintf(&b, "  - name: e%d\n    weight: %d\n    min_waiting_time: 0\n    requests: [\"c\"]\n", i, c.weight(i))
 		}
 		return ".grpc.yaml", strings.ReplaceAll(b.String(), "\n", nl)
 	}
@@ -583,6 +584,9 @@ func construct(c Cell, path string, cio *cellIO) (core.Provider, error) {
 	if c.Pick != nil && !(IsHTTP(c.Kind) || c.Kind == KGRPCJSON) {
 		return nil, fmt.Errorf("harness: kind %s has no chosencases option", c.Kind)
 	}
+	if c.Wts != nil && (!(c.Kind == KHTTPScn || c.Kind == KGRPCScn) || len(c.Wts) != c.N) {
+		return nil, fmt.Errorf("harness: weights need a scenario kind and one weight per scenario")
+	}
 	if c.Via == "cfg" {
 		return constructCfg(c, path)
 	}
@@ -656,7 +660,7 @@ func construct(c Cell, path string, cio *cellIO) (core.Provider, error) {
 
 // Seekable: can the data source of the cell be read more than once?  (file, inline data and readers that can Seek; a
 // plain io.Reader and a bytes.Buffer cannot be rewound: ioutil2.NewMultiPassReader then reads them once.)
-func Seekable(src string) bool { return src != "pipe" && src != "buf" }
+func Seekable(src string) bool { return src != "pipe" && src != "buf" && src != "rc" }
 
 // InMemory: the source of the cell is not a file of the counting filesystem
 func InMemory(c Cell) bool { return c.Kind == KGenJSON && c.Src != "" && c.Src != "file" }
@@ -704,6 +708,17 @@ func (m memSeekCloser) Close() error {
 	return nil
 }
 
+// memCloser: an io.ReadCloser that cannot Seek (a pipe, a response body)
+type memCloser struct{ *memReader }
+
+func (m memCloser) Close() error {
+	if m.io.cfail {
+		m.io.chit.Store(true)
+		return errInjClose
+	}
+	return nil
+}
+
 func genSource(c Cell, path string, cio *cellIO) (core.DataSource, error) {
 	_, content := FileFor(c)
 	mr := &memReader{r: bytes.NewReader([]byte(content)), io: cio}
@@ -716,6 +731,8 @@ func genSource(c Cell, path string, cio *cellIO) (core.DataSource, error) {
 		return datasource.NewReader(memSeeker{mr}), nil
 	case "rsc":
 		return datasource.NewReader(memSeekCloser{memSeeker{mr}}), nil
+	case "rc":
+		return datasource.NewReader(memCloser{mr}), nil
 	case "pipe":
 		return datasource.NewReader(io.Reader(mr)), nil
 	case "buf":
@@ -918,13 +935,53 @@ func (c Cell) Eff() int {
 	if c.Pick != nil {
 		return len(c.Pick)
 	}
+	if c.Wts != nil {
+		return len(c.Order())
+	}
 	return c.N
+}
+
+// weight of scenario i as written into the file (1 when the cell has no weights)
+func (c Cell) weight(i int) int {
+	if c.Wts != nil && i < len(c.Wts) {
+		return c.Wts[i]
+	}
+	return 1
+}
+
+// Spread is what the property's "entries" are for a scenario file with weights: scenario i, in file order, weight_i / g
+// times in a row, g = the greatest common divisor of all weights, a weight 0 counting as 1 (derived from the documented
+// meaning of `weight`, not from the code).
+func Spread(wts []int) []int {
+	g := 0
+	w := make([]int, len(wts))
+	for i, x := range wts {
+		if x == 0 {
+			x = 1
+		}
+		w[i] = x
+		a, b := g, x
+		for b != 0 {
+			a, b = b, a%b
+		}
+		g = a
+	}
+	var o []int
+	for i, x := range w {
+		for k := 0; k < x/g; k++ {
+			o = append(o, i)
+		}
+	}
+	return o
 }
 
 // Order lists the identities of the entries of one pass in the order they have to be delivered.
 func (c Cell) Order() []int {
 	if c.Pick != nil {
 		return c.Pick
+	}
+	if c.Wts != nil {
+		return Spread(c.Wts)
 	}
 	o := make([]int, c.N)
 	for i := range o {
@@ -935,6 +992,9 @@ func (c Cell) Order() []int {
 
 // toIndex maps acquired identities to their position in one pass (-1: not an entry of a pass)
 func toIndex(seq []int, order []int) []int {
+	if repeats(order) {
+		return toIndexRep(seq, order)
+	}
 	pos := map[int]int{}
 	for i, id := range order {
 		pos[id] = i
@@ -946,6 +1006,40 @@ func toIndex(seq []int, order []int) []int {
 		} else {
 			out[k] = -1
 		}
+	}
+	return out
+}
+
+func repeats(order []int) bool {
+	seen := map[int]bool{}
+	for _, id := range order {
+		if seen[id] {
+			return true
+		}
+		seen[id] = true
+	}
+	return false
+}
+
+// toIndexRep: a pass in which identities repeat (scenario weights).  The k-th acquisition with identity id is given the
+// position of the (k mod c_id)-th occurrence of id in a pass — for one consumer (recorded in channel order) that is exactly
+// its position when the sequence is the cyclic pass, and any deviation shows as a wrong position; for several consumers
+// (multiset check) the positions of one identity are filled in turn, which is what the cyclic pass does.
+func toIndexRep(seq []int, order []int) []int {
+	occ := map[int][]int{}
+	for i, id := range order {
+		occ[id] = append(occ[id], i)
+	}
+	seen := map[int]int{}
+	out := make([]int, len(seq))
+	for k, id := range seq {
+		ps := occ[id]
+		if len(ps) == 0 {
+			out[k] = -1
+			continue
+		}
+		out[k] = ps[seen[id]%len(ps)]
+		seen[id]++
 	}
 	return out
 }
